@@ -1187,4 +1187,38 @@ def runObserveG (m : Mode) (D : Dims) (T : Tables α) (A : List Bool) (P : Prog 
 
 end Global
 
+section Pre
+variable {α : Type} [RealOps α]
+
+/-! ## The ACTNUM-only pre-pass (`FieldProps(deck, grid)`, `scanGRIDSectionOnlyACTNUM`)
+
+`EclipseGrid` obtains its ACTNUM by running a scratch FieldProps with ALL cells active over the
+GRID section, looking only at the ACTNUM data keyword, EQUALS (every record of it) and
+BOX/ENDBOX; a cell is active iff the resulting ACTNUM value is > 0 (`EclipseGrid::resetACTNUM`). -/
+
+def Kw.inPrepass : Kw α → Bool
+  | .box _ => true
+  | .endbox => true
+  | .dataI kw _ => kw == "ACTNUM"
+  | .scalar op _ => op == .equal
+  | _ => false
+
+def prepassAct (D : Dims) (T : Tables α) (grid : List (Kw α)) : Option (List Bool) :=
+  let A0 := List.replicate D.size true
+  match scanSection .impl D T .grid (initSt A0) (grid.filter Kw.inPrepass) with
+  | none => none
+  | some s =>
+    match sget s.ints "ACTNUM" with
+    | none => some A0
+    | some a => some (a.map fun c => decide (c.v > 0))
+
+/-- `EclipseState(deck)`: pre-pass for the ACTNUM, then the real constructor -/
+def runDeck (m : Mode) (D : Dims) (T : Tables α) (P : Prog α) : Option (Result α) :=
+  match prepassAct D T P.grid with
+  | none => none
+  | some A => runObserveG m D T A P
+
+
+end Pre
+
 end OpmVerif.FieldProps
